@@ -4,10 +4,16 @@
    a's UNMASKED length, a[i] += b[raw index of a's i-th element]; any other length combination raises and modifies nothing. */
 void STUB__ZN7PyImath13PyReleaseLockC1Ev(struct T_class_PyImath__PyReleaseLock* p) {}
 void STUB__ZN7PyImath13PyReleaseLockD1Ev(struct T_class_PyImath__PyReleaseLock* p) {}
+#ifndef AM
+#define AM 0
+#endif
+#ifndef BM
+#define BM 0
+#endif
 HARNESS(h_apply_iadd)
 {
-    IN(u64, la); IN(u64, lb); IN(u8, am_); IN(u8, bm_); ASSUME(la <= N && lb <= N);
-    int am = am_ & 1, bm = bm_ & 1;
+    IN(u64, la); IN(u64, lb); ASSUME(la <= N && lb <= N);
+    const int am = AM, bm = BM;      /* array kinds pinned per obligation */
     ARR(a, la, am, 1); ARR(b, lb, bm, 0);
     __verif_exc = 0; w_apply_iadd(&a, &b);
     u64 aul = am ? a_ul : la;
